@@ -36,7 +36,7 @@ def rates (s : Scale) : List Rat := s.map (·.2)
 /-! ## `add_bracket` -/
 
 /-- `threshold in self.thresholds` -/
-def hasT (s : Scale) (t : Rat) : Bool := s.any (fun b => b.1 == t)
+def hasT (s : Scale) (t : Rat) : Bool := s.any (fun b => decide (b.1 = t))
 
 /-- `self.thresholds.index(threshold)` (first occurrence; the length when absent) -/
 def indexT : Scale → Rat → Nat
